@@ -1,21 +1,23 @@
 #!/bin/bash
 # For every archived seeded change: apply to /repo, decide ALL registered properties from one verification per unit, undo.
+# (ZVT_REPO / VERIF_WORK select another checkout of the repository and another scratch directory.)
 # Writes seeded/matrix.json  { seed: { property: OK|VIOLATION|UNDECIDED } }   usage: lib/seed_matrix.sh [ID...]
 cd "$(dirname "$0")/.."
+R=${ZVT_REPO:-/repo}; W=${VERIF_WORK:-.work}; mkdir -p $W
 ids="$@"; [ -z "$ids" ] && ids=$(ls seeded | grep -v matrix)
 for id in $ids; do
   [ -f seeded/$id/patch.diff ] || continue
-  if ! git -C /repo diff --quiet; then echo "/repo is dirty, refusing"; exit 2; fi
-  git -C /repo apply "$PWD/seeded/$id/patch.diff" || { echo "$id: patch does not apply"; continue; }
-  ./check ALL 2>/dev/null | grep -E "^(VIOLATION|UNDECIDED|OK)" > .work/matrix_$id.txt
-  git -C /repo checkout -- .
-  echo "seed=$id $(grep -c ^VIOLATION .work/matrix_$id.txt) violation lines"
+  if ! git -C $R diff --quiet; then echo "/repo is dirty, refusing"; exit 2; fi
+  git -C $R apply "$PWD/seeded/$id/patch.diff" || { echo "$id: patch does not apply"; continue; }
+  ./check ALL 2>/dev/null | grep -E "^(VIOLATION|UNDECIDED|OK)" > $W/matrix_$id.txt
+  git -C $R checkout -- .
+  echo "seed=$id $(grep -c ^VIOLATION $W/matrix_$id.txt) violation lines"
 done
-python3 - <<'PY'
+W=$W python3 - <<'PY'
 import json,glob,re,os
 p='seeded/matrix.json'
 m=json.load(open(p)) if os.path.exists(p) else {}
-for f in glob.glob('.work/matrix_*.txt'):
+for f in glob.glob('$W/matrix_*.txt'):
     sid=f.split('matrix_')[1][:-4]
     row={}
     for l in open(f):
